@@ -372,6 +372,7 @@ func GenerateTwins(seed uint64, idFlat, idEmb string) (*sdl.Program, *sdl.Progra
 		p.Scanners = append(p.Scanners, sc)
 	}
 	for _, t := range p.Types {
+		t.Logger, t.LogEmbed = r.p(0.4), nil
 		for fi := 0; fi < r.n(0, 2); fi++ {
 			cf := genConf(r, fmt.Sprintf("C%d", fi))
 			cf.Optional, cf.Validate, cf.Embed = true, "", nil
@@ -439,6 +440,9 @@ func GenerateTwins(seed uint64, idFlat, idEmb string) (*sdl.Program, *sdl.Progra
 		}
 		for _, cu := range t.Custom {
 			cu.Embed = embedChain(r, 0.8)
+		}
+		if t.Logger {
+			t.LogEmbed = embedChain(r, 0.8)
 		}
 	}
 	return p, &q
